@@ -592,3 +592,33 @@ Definition memtable_flow_row {A : Type} (d : A) (filter_cols ret fields o1 o2 : 
   : list (bytes * A) :=
   flow_row d (selection_columns_ret filter_cols ret fields o1) (selection_columns_ret filter_cols ret fields o2)
            (Some ret) fields ev.
+
+(** ---- the core string fields (context_id, event_type) are values too ----
+    Event::get_field_scalar gives [Utf8 text] and the renderer applies [to_json] (so the re-parsing rule of
+    [json_of_utf8] applies to them as well).  In a segment they are var-bytes columns; the flusher writes the
+    text, the compactor reads it with [into_strings] and writes it back, and
+    ConditionEvaluator::evaluate_zones_with_limit hands the TEXT to [EventBuilder::add_field], which stores it
+    verbatim for these two names.  EventSink (not on the QUERY/REPLAY path) asks [get_i64_at] first and
+    [add_field_i64] falls back to [add_field (n.to_string())]: an integer-looking text would come back in its
+    canonical decimal spelling ("00123" -> "123", "+7" -> "7", "-0" -> "0"). *)
+Definition core_write (s : bytes) : bytes := s.               (* ColumnGroupBuilder, var-bytes *)
+Definition core_compact (s : bytes) : bytes := core_write s.   (* into_strings, then the writer *)
+Definition core_read (s : bytes) : bytes := s.                 (* add_field "context_id" text *)
+Definition core_read_sink (s : bytes) : bytes :=
+  match parse_i64 s with Some z => dec_of_Z z | None => s end.
+
+Fixpoint iter_core_compact (n : nat) (s : bytes) : bytes :=
+  match n with O => s | S k => iter_core_compact k (core_compact s) end.
+
+(** the text of a core string field as the layout holds it (the WAL line is a JSON string: identity) *)
+Definition core_tier_text (l : layout) (s : bytes) : bytes :=
+  match in_seg l with
+  | None => s
+  | Some n => core_read (iter_core_compact n (core_write s))
+  end.
+(** what QUERY / REPLAY return in the context_id / event_type column *)
+Definition returned_core (l : layout) (s : bytes) : json := json_of_utf8 (core_tier_text l s).
+
+(** FOR <ctx> is a string-equality condition on context_id (condition_evaluator_builder.rs) evaluated on the
+    text of the layout: does the read FOR [q] return an event stored under [ctx]? *)
+Definition for_selects (l : layout) (q ctx : bytes) : bool := bytes_eqb (core_tier_text l ctx) q.
